@@ -44,6 +44,9 @@ func lookupModel(fn *ssa.Function) modelFn {
 		}
 	}
 	mark := func(m modelFn) modelFn { usedModels[name] = true; return m }
+	if m := streamModels(name); m != nil {
+		return mark(m)
+	}
 	switch {
 	case pkg == "github.com/sirupsen/logrus":
 		return mark(modelNoEffect)
@@ -125,6 +128,10 @@ func lookupModel(fn *ssa.Function) modelFn {
 }
 
 func lookupIfaceModel(T types.Type, m *types.Func) modelFn {
+	if mm := streamIfaceModel(T, m); mm != nil {
+		usedModels["interface "+typeName(T)+"."+m.Name()+" (ghost token stream)"] = true
+		return mm
+	}
 	return nil
 }
 
